@@ -140,7 +140,35 @@ impl<R: VReadExt> Reader<R> {
                 && final(self).inner.remaining() == old(self).inner.remaining().subrange(n as int, old(self).inner.remaining().len() as int),
             Err(_) => final(self).bytes_read == old(self).bytes_read,
         },'''),
-    Raw('''}
+    # optional: an override of std's default `read_to_end` must still meet std's contract for
+    # this reader (append exactly what repeated `read` would deliver) and the allocation rule
+    Fn(PAY, 'read_to_end', impl='impl<R: Read> Read for Reader<R>', optional=True,
+       subs=[ret(), ('fn read_to_end(', 'pub fn read_to_end(', 1, 'R10-trait-impl-as-inherent-fn'),
+             (re.compile(r'self\.read\(&mut ([A-Za-z_][A-Za-z0-9_]*)\[([A-Za-z_][A-Za-z0-9_]*)\.\.\]\)'), lambda m: 'self.read_from(%s, %s)' % (mut_ref(m, m.group(1)), m.group(2)), None, "R17'-read into a suffix slice"),
+             ] + ALLOC_RULES,
+       spec='''    requires old(self).bytes_read <= old(self).file_size,
+    ensures
+        r is Ok ==> {
+            let rest = (old(self).file_size - old(self).bytes_read) as int;
+            let avail = old(self).inner.remaining();
+            let k = if rest <= avail.len() { rest } else { avail.len() as int };
+            &&& final(buf)@ == old(buf)@ + avail.subrange(0, k)
+            &&& r->Ok_0 == k
+        },'''),
+    Raw('''
+    /// R17': `self.read(&mut buf[start..])` - Reader::read on a suffix of buf (contract of V:Reader::read)
+    #[verifier::external_body]
+    pub fn read_from(&mut self, buf: &mut Vec<u8>, start: usize) -> (r: io::Result<usize>)
+        requires old(self).bytes_read <= old(self).file_size, start <= old(buf)@.len(),
+        ensures
+            final(self).file_size == old(self).file_size, final(self).bytes_read <= final(self).file_size,
+            final(buf)@.len() == old(buf)@.len(),
+            final(buf)@.subrange(0, start as int) == old(buf)@.subrange(0, start as int),
+            r is Ok ==> r->Ok_0 <= old(buf)@.len() - start
+                && r->Ok_0 <= old(self).file_size - old(self).bytes_read
+                && final(buf)@.subrange(start as int, start + r->Ok_0) == old(self).inner.remaining().subrange(0, r->Ok_0 as int),
+    { unimplemented!() }
+}
 #[verifier::external_body]
 pub fn min_u64(a: u64, b: u64) -> (r: u64) ensures r == (if a <= b { a } else { b }) { a.min(b) }
 impl<W: VWrite> Writer<W> {
@@ -229,4 +257,5 @@ OBLIGATIONS = {
     'Writer::write': ['C07', 'C09'],
     'c07_writer_entry': ['C07', 'C09'],
 }
+OPTIONAL = {'Reader::read_to_end': ['C07', 'C04']}
 CANARIES = ['canary_c07_read', 'canary_c07_write']
